@@ -42,6 +42,15 @@ CLAIMED = {
         "body lines are don't-care.",
         "exhaustive vocabulary enumeration over class shapes + Hypothesis over registry classes; reference-model oracle",
     ),
+    "C10": (
+        "All 9330 sequences of <=5 headings over six colliding titles (exhaustive in thorough, all <=4 plus a quarter "
+        "of length 5 in quick) and Hypothesis title sequences over Unicode / punctuation / inline markup, anchor depth "
+        "0-7, default / dotted-path / raising slug functions; three-way oracle: reference model of the documented GitHub "
+        "rule, myst-anchors output for the same text, self-resolution of '[](#slug)'; bounded search.",
+        "Model asserted only for titles without outer white space (documentation silent); headings inside directive "
+        "bodies excluded (CLI cannot see them).",
+        "exhaustive small-alphabet sequences + Hypothesis; reference-model + differential (myst-anchors CLI) + round-trip (link resolution) oracles",
+    ),
     "C16": (
         "Hypothesis markup soup (totality, termination, tree consistency), grammar-generated well-formed HTML and "
         "exhaustive forests of <=4/5 nodes (exact round trip, copy/strip isolation, find = brute-force filter), "
